@@ -20,7 +20,7 @@ ASSUMPTIONS = [
     "OP is evaluated only with methods that do not force start nodes (the OP start rule is a recorded C12 finding)",
     "sampling with select_best happens inside the policy call (covered by C12's tap); here its returned reward is checked against the returned actions",
 ]
-REQUIRED_COUNTERS = ["c15_evaluator_reuse_calls", "c15_augment_calls", "c15_copies_checked", "c15_eval_calls", "c15_eval_rows", "c15_candidates", "c15_sampling_replays", "c15_model_val_rows"]
+REQUIRED_COUNTERS = ["c15_augment_history_calls", "c15_never_worse_than_greedy_checks", "c15_evaluator_reuse_calls", "c15_augment_calls", "c15_copies_checked", "c15_eval_calls", "c15_eval_rows", "c15_candidates", "c15_sampling_replays", "c15_model_val_rows"]
 MIN_NONTRIVIAL = {"quick": 1500, "thorough": 6000}
 WORKERS = {"quick": 14, "thorough": 16}
 BUDGET_S = {"quick": 500, "thorough": 3000}
@@ -40,6 +40,11 @@ def cases(tier, seed):
                 for A in ((2, 4, 8, 16) if q else (2, 3, 4, 5, 8, 12, 16)):
                     out.append(dict(kind="augment", coords=ck, B=B, n=n, A=A, fam="symmetric", s=rnd.randrange(10**6)))
                 out.append(dict(kind="augment", coords=ck, B=B, n=n, A=4, fam="symmetric", first_aug_identity=False, s=rnd.randrange(10**6)))
+    # earlier calls in the same process with the same number of augmented rows but other factors / options
+    for ck in ("uniform", "border"):
+        for (B, A, before) in ((16, 2, [(4, 8, True)]), (8, 4, [(4, 8, True)]), (8, 2, [(2, 8, True), (4, 4, False)]), (4, 4, [(4, 4, False)]), (3, 4, [(6, 2, True), (2, 6, True)])):
+            for r in range(1 if q else 3):
+                out.append(dict(kind="augment", coords=ck, B=B, n=rnd.choice([5, 10]), A=A, fam="symmetric", before=before, s=rnd.randrange(10**6)))
     methods = ["greedy", "sampling", "multistart_greedy", "augment", "augment_dihedral_8", "multistart_greedy_augment", "multistart_greedy_augment_dihedral_8"]
     for env in ("tsp", "cvrp", "pctsp", "op"):
         for m in methods:
